@@ -172,8 +172,10 @@ def splitArrow (ts : List String) : Option (List String × List String) :=
 Second token `prop=PASS|FAIL:<clause>`: the verdict of the property checker evaluated on the
 *implementation's* output (independent of whether the model agrees). Then free-form class
 tags (`k=v`), and for `DIFF` the two values at the end of the line. -/
+def oneLine (s : String) : String := String.ofList (s.toList.map (fun c => if c == '\n' || c == '\r' then ' ' else c))
+
 def reply (same : Bool) (prop : String) (cls : String := "") (model impl : String := "") : String :=
-  (if same then "AGREE" else "DIFF") ++ " prop=" ++ prop ++
+  oneLine <| (if same then "AGREE" else "DIFF") ++ " prop=" ++ prop ++
     (if cls = "" then "" else " " ++ cls) ++
     (if same then "" else " model=[" ++ model ++ "] impl=[" ++ impl ++ "]")
 
